@@ -67,7 +67,7 @@ def replay(run: Run, records, fn, label):
 
 EXPECTED_ACTIONS = {
     "unary": {"Sorted", "Filtered", "Unique", "GetColumns", "WithNewColumn", "Transposed"},
-    "binary": {"InnerJoin", "NaturalJoin", "CrossJoin", "AppendedRenamed"},
+    "binary": {"InnerJoin", "NaturalJoin", "NaturalJoinRenamed", "CrossJoin", "AppendedRenamed"},
     "big": {"Sorted"},
 }
 
